@@ -465,7 +465,7 @@ def run_part2(case, ob, site):
 # part 3: block-level faults
 
 FAULTS = ['second_driver', 'undriven', 'undriven_register', 'undriven_output', 'reg_driven_by_gate', 'cycle_into_sync_mem', 'unconnected', 'foreign_wire', 'foreign_dest', 'duplicate_name', 'stale_by_name', 'missing_by_name',
-          'sync_mem_comb_addr', 'comb_cycle', 'isolated_ring', 'mem_cycle', 'bad_arity', 'bad_width', 'bad_memid', 'write_to_rom']
+          'sync_mem_comb_addr', 'comb_cycle', 'isolated_ring', 'mem_cycle', 'bad_arity', 'bad_width', 'bad_memid', 'write_to_rom', 'undriven_sync_addr']
 CYCLES = ('comb_cycle', 'isolated_ring', 'mem_cycle', 'cycle_into_sync_mem')   # detected by iteration (simulator construction), not by sanity_check alone
 
 
@@ -474,6 +474,7 @@ def part3_cases(tier, seed):
         [c for c in designs.seq_cases(widths=(3,)) if c['kind'] in ('chain', 'mem_rdw', 'counter', 'rom_reg')] + \
         [{'fam': 'LOOP', 'kind': 'repeat_args'}, {'fam': 'LOOP', 'kind': 'repeat_args_mem'}]
     out = []
+    out.append({'part': 3, 'fam': 'SESSIONS', 'fault': None, 'mode': 'foreign_wb'})
     for ci, c in enumerate(base):
         for mode in MODES:
             out.append(dict(c, part=3, fault=None, mode=mode))
@@ -665,6 +666,15 @@ def inject(block, fault, fsite):
                 return False
             n = cand[fsite]
             n.dests[0].bitwidth = n.args[0].bitwidth + 2
+        elif fault == 'undriven_sync_addr':
+            # a wire that is read but never driven, on the address path of a synchronous memory's read port
+            if fsite > 2:
+                return False
+            m_ = pyrtl.MemBlock(bitwidth=2, addrwidth=2, name='vf_syncm', asynchronous=False)
+            t_ = pyrtl.WireVector(2, 'vf_floating')
+            adr = [t_, pyrtl.concat(t_[0], t_[1]), t_[0:2]][fsite]
+            o_ = pyrtl.Output(2, 'vf_sync_o')
+            o_ <<= m_[adr]
         elif fault == 'bad_memid':
             # a memory port whose op_param names another memory id than the MemBlock it carries
             cand = [n for n in nets if n.op in 'm@']
@@ -740,7 +750,30 @@ def _acceptors(block, res):
     return res
 
 
+def build_two_sessions():
+    """a design kept in its own Block and built in two sittings, with a reset_working_block() for some other work in between;
+    automatic names (tmpN, const_N) are used in both sittings"""
+    from pyrtl import core as _core
+    b = pyrtl.Block()
+    with pyrtl.set_working_block(b, no_sanity_check=True):
+        x, y = pyrtl.Input(2, 'x'), pyrtl.Input(2, 'y')
+        t = (x & 1) ^ (y | 2)
+        u = t + 1
+    _core.reset_working_block()          # the library's own function (vf/__init__.py wraps only the package-level name)
+    with pyrtl.set_working_block(b, no_sanity_check=True):
+        w = (u[0:2] ^ 3) & (x | 1)
+        o = pyrtl.Output(3, 'o')
+        o <<= pyrtl.concat(w, t[0]) + 2
+    return b
+
+
 def run_part3(case, ob, site):
+    if case.get('fam') == 'SESSIONS':
+        block = build_two_sessions()
+        res = checked(dict(case, mode='foreign_wb'), block)
+        for k, v in res.items():
+            ob.fact('design-built-in-two-sittings-accepted-by-%s' % k, v is None, site + ':rejects-well-formed:' + k, detail=v)
+        return
     block = designs.build(case)
     if case.get('mode') == 'post_synth':
         with pyrtl.set_working_block(block, no_sanity_check=True):
@@ -790,6 +823,10 @@ def run_case(case, ob, tier):
 
 def replay(cex):
     c = cex['case']
+    if c['part'] == 3 and c.get('fam') == 'SESSIONS':
+        res = checked(dict(c, mode='foreign_wb'), build_two_sessions())
+        bad = {k: v for k, v in res.items() if v is not None}
+        return bool(bad), 'a design built in two sittings (reset_working_block() in between) is rejected: %r' % bad
     if c['part'] == 3:
         block = designs.build(c)
         if c.get('mode') == 'post_synth':
